@@ -270,6 +270,9 @@ func (l *ledger) onTxEnd(receipt *types.Receipt, err error) {
 	var order []common.Address
 	for _, d := range base.destructs {
 		l.nDestructs++
+		// a self-destructed account may lose ether at the end of the transaction (e.g. the fee
+		// paid to a self-destructed fee recipient): not "otherwise untouched" for E2/E3
+		l.otherTouch[d.who] = true
 		dies := !l.rules.IsCancun || created[d.who] // the account is really removed at the end
 		if d.who == d.beneficiary && dies && !l.rules.IsAmsterdam {
 			immediate.Add(immediate, d.value)
